@@ -211,6 +211,7 @@ pub fn run_trans(cx: &mut Ctx, s: &Schedule, case: &Value) -> bool {
             None => {
                 let mut w = vec![
                     ("update", if members.is_empty() { 0 } else { 10 }),
+                    ("update_pair", if members.len() < 2 { 0 } else { 10 }),
                     ("add_own", if outside.is_empty() { 0 } else { 12 }),
                     ("remove", if members.is_empty() { 0 } else { 12 }),
                     ("add_end", if outside.is_empty() || model.is_empty() { 0 } else { 14 }),
@@ -230,6 +231,24 @@ pub fn run_trans(cx: &mut Ctx, s: &Schedule, case: &Value) -> bool {
                         } else {
                             json!({"t": "update", "v": v.to_string(), "end": cx.name(*rng.pick(&ends))})
                         }
+                    }
+                    "update_pair" => {
+                        // two vehicles changed in one batch, as Schedule does it: the second update sees
+                        // the first one's new tour only through `updated_tours`. Prefer cycle neighbours.
+                        let cyc: Vec<&Vec<VehicleIdx>> = model.iter().filter(|c| c.len() >= 2).collect();
+                        let (a, b) = if !cyc.is_empty() && rng.chance(3, 4) {
+                            let c = *rng.pick(&cyc);
+                            let i = rng.usize(c.len());
+                            let j = (i + 1) % c.len();
+                            if rng.chance(1, 2) { (c[i], c[j]) } else { (c[j], c[i]) }
+                        } else {
+                            let a = *rng.pick(&members);
+                            let others: Vec<VehicleIdx> = members.iter().copied().filter(|x| *x != a).collect();
+                            (a, *rng.pick(&others))
+                        };
+                        json!({"t": "update_pair", "v": a.to_string(), "w": b.to_string(),
+                               "start": cx.name(*rng.pick(&starts)), "end": cx.name(*rng.pick(&ends)),
+                               "start2": cx.name(*rng.pick(&starts)), "end2": cx.name(*rng.pick(&ends))})
                     }
                     "add_own" => json!({"t": "add_own", "v": rng.pick(&outside).to_string()}),
                     "remove" => json!({"t": "remove", "v": rng.pick(&members).to_string()}),
@@ -280,6 +299,35 @@ pub fn run_trans(cx: &mut Ctx, s: &Schedule, case: &Value) -> bool {
                 }
                 _ => None,
             },
+            "update_pair" => {
+                let w = op["w"].as_str().and_then(parse_vehicle);
+                match (v, w) {
+                    (Some(a), Some(b)) if a != b && in_model(a) && in_model(b) => {
+                        let mk = |cx: &Ctx, old: &Tour, sk: &str, ek: &str| -> Option<Tour> {
+                            let t1 = op[sk].as_str().and_then(|n| cx.node(n)).and_then(|sd| old.replace_start_depot(sd).ok())?;
+                            op[ek].as_str().and_then(|n| cx.node(n)).and_then(|e| t1.replace_end_depot(e).ok())
+                        };
+                        let (oa, ob) = (tours.get(&a).unwrap().clone(), tours.get(&b).unwrap().clone());
+                        match (mk(cx, &oa, "start", "end"), mk(cx, &ob, "start2", "end2")) {
+                            (Some(na), Some(nb)) => {
+                                let r = guarded(|| {
+                                    let t1 = t.update_vehicle(a, &na, &empty, &tours, &nw);
+                                    let mut upd: ImHashMap<VehicleIdx, &Tour> = ImHashMap::new();
+                                    upd.insert(a, &na);
+                                    t1.update_vehicle(b, &nb, &upd, &tours, &nw)
+                                });
+                                if r.is_ok() {
+                                    tours.insert(a, na);
+                                    tours.insert(b, nb);
+                                }
+                                Some(r)
+                            }
+                            _ => None,
+                        }
+                    }
+                    _ => None,
+                }
+            }
             "add_own" => match v {
                 Some(v) if outside.contains(&v) => {
                     let r = guarded(|| t.add_vehicle_to_own_cycle(v, tours.get(&v).unwrap(), &nw));
